@@ -10,18 +10,19 @@ TECH = "Lean 4 theorem about an executable model + regenerated facts + different
 
 LEVEL = {
  "C12": "refinement theorems in Lean 4: MemoryReader (u64 guards) and SliceReader<W> over any in-bounds-correct W equal the abstract N-arithmetic "
-        "reader on every operation, every 64-bit argument and every finite history, nested to any depth; typed-helper size theorems; the guards, "
+        "reader on every operation, every 64-bit argument and every finite history, nested to any depth; typed-helper size theorems; size-prefixed and NUL-terminated reads over every refining reader and over a live object of any backend; atomic failure on every implementation model from any state; the guards, "
         "cursor updates and memcpy extents of MemoryReader and SliceReader<FileReader> are re-translated from the clang AST on every run and "
         "proved equal to the model's on all 64-bit values (C12_gen_*); exhaustive short histories + random long ones on the real classes under "
         "ASan/UBSan compared with the compiled model and with an independent Python oracle; ReadNullTerminatedString(maxCount) proved against "
         "its description (NUL-free prefix, terminator consumed, never more than maxCount, error when the data ends first) for MemoryReader, "
         "FileReader, and slices nested to any depth",
  "C13": "slice-creation guard exactness (incl. wrap-around), window theorem to any nesting depth, slice-here and backend-equivalence theorems in "
-        "Lean 4; SliceReader's constructor, Initialize and both Slice overloads re-translated from the clang AST on every run and proved equal to "
+        "Lean 4; the system of live reader objects (Sys) that the multi-object runs execute, with frame, projection (every interleaving), confinement, "
+        "reachability (every object a window of the root) and refinement / backend-equivalence theorems for whole systems; SliceReader's constructor, Initialize and both Slice overloads re-translated from the clang AST on every run and proved equal to "
         "the model (C13_gen_*); real-class runs: creation lattice, interleaved multi-object histories with an independence oracle, "
         "same-history-on-every-backend runs, member streams of archives whose index size and block length differ",
  "C14": "fixed-writer refinement (all histories), frame and refusal theorems, growing-writer = history fold, prefix refusal, codec inverses, "
-        "copy-loop theorem for every chunk size, open-flag table by decide, Append keeps prior content as a prefix under every history of seeks "
+        "copy-loop theorem for every chunk size and every reader backend, little-endian codec laws for every width, size-prefixed write/read round trip, open-flag table by decide, Append keeps prior content as a prefix under every history of seeks "
         "and writes (C14_append_history); MemoryWriter / DynamicMemoryWriter guards re-translated from the clang AST on every run and proved equal "
         "to the model (C14_gen_*); guard-zoned buffers, exhaustive short histories, copy matrix, on-disk open-flag matrix and file-writer "
         "histories against the model and a Python oracle",
